@@ -104,6 +104,27 @@ def gen(chk, tier):
         g.one("decode_small_x_valid", "pt.setbytes", b=[4] + b32(xx) + b32(yy), recv=recv)
         if xx + P < T256:
             g.one("decode_noncanonical_x", "pt.setbytes", b=[4] + b32(xx + P) + b32(yy), recv=recv)
+    from ..sm2gen import limb_structured
+    ny = 0
+    for yv in [1, 2, 3] + [D - 1 for D in limb_structured(rng, 20 if q else 400, maxbits=224)]:
+        if yv < 0 or yv + P >= T256:
+            continue
+        for xv in ec.xs_for_y(yv, rng)[:1]:
+            g.one("decode_small_y_valid", "pt.setbytes", b=[4] + b32(xv) + b32(yv), recv=recv)
+            g.one("decode_noncanonical_y", "pt.setbytes", b=[4] + b32(xv) + b32(yv + P), recv=recv)
+            ny += 1
+        if ny >= (6 if q else 200):
+            break
+    nx = 0
+    for D in limb_structured(rng, 60 if q else 1500, maxbits=224):
+        yD = ec.lift_x(D - 1)
+        if yD is None:
+            continue
+        g.one("decode_structured_x_valid", "pt.setbytes", b=[4] + b32(D - 1) + b32(yD), recv=recv)
+        g.one("decode_structured_noncanonical_x", "pt.setbytes", b=[4] + b32(D - 1 + P) + b32(yD), recv=recv)
+        nx += 1
+        if nx >= (6 if q else 200):
+            break
     g.one("decode_noncanonical_p_p", "pt.setbytes", b=[4] + b32(P) + b32(P), recv=recv)
     for bit in (rng.sample(range(8, 520), 6 if q else 200)):
         e2 = list(enc)
